@@ -331,6 +331,46 @@ class SingletonAdapter:
             return sorted(ids)
 
 
+def build_tree(par, abstract, names=None):
+    """classes for a tree given as parent list (par[i-1] = parent of node i), abstract node set and names"""
+    import abc
+    cls = {}
+    for i in range(len(par) + 1):
+        if i in abstract:
+            ns = {"f": abc.abstractmethod(lambda self: None)}
+        else:
+            ns = {"f": lambda self: None}
+        base = (abc.ABC,) if i == 0 else (cls[par[i - 1]],)
+        cls[i] = abc.ABCMeta("N%d" % i if names is None else "K%d" % names[i], base, ns)
+    return cls
+
+
+def class_tree(ctx, cu):
+    from vlib import cases
+    from adapters.C19 import compare, safe
+    spec = os.path.join(D, "ClassTree.tla")
+
+    def sub(c, exp):
+        cls = build_tree(c["par"], set(c["abs"]))
+        inv = {v: k for k, v in cls.items()}
+        got = safe(lambda: [inv[x] for x in cu.subclasses(cls[c["r"]], abstract_ok=bool(c["ok"]))])
+        compare(ctx, "subclasses", c, exp, got)
+    n1 = cases.enumerate_cases(spec, model.constants_block({"N": 4, "Names": "{1,2}"}), ctx, "subclasses", sub, "DomainSub", "DefSub")
+
+    def name(c, exp):
+        cls = build_tree(c["par"], set(c["abs"]), list(c["names"]))
+        inv = {v: k for k, v in cls.items()}
+
+        def call():
+            try:
+                return [inv[cu.sub_cls_from_its_name(cls[c["r"]], "K%d" % c["name"], abstract_ok=bool(c["ok"]))]]
+            except ValueError:
+                return []
+        compare(ctx, "sub_cls_from_its_name", c, exp, safe(call))
+    n2 = cases.enumerate_cases(spec, model.constants_block({"N": 3, "Names": "{1,2}"}), ctx, "sub_cls_from_its_name", name, "DomainName", "DefName")
+    ctx.note("ClassTree: %d + %d cases" % (n1, n2))
+
+
 def run(ctx):
     import windpyutils.generic as g
     import windpyutils.structures.data_classes as dc
@@ -338,7 +378,8 @@ def run(ctx):
     import windpyutils.files as fl
     import windpyutils.mocking as mk
     import windpyutils.logger as lg
-    for m in (g, dc, dp, fl, mk, lg):
+    import windpyutils.class_utils as cu
+    for m in (g, dc, dp, fl, mk, lg, cu):
         importlib.reload(m)
     ctx.rule = "growth beyond the listed properties: TLC's complete transition relation of six further specifications (RoundSequence, AttributeDrivenDictionary, Observable, MapAccessFile, MockedRand / MockedRandInt, Singleton + Logger) walked on the real classes"
     jobs = (
@@ -357,4 +398,5 @@ def run(ctx):
         gr, _ = graphwalk.emit_graph(spec, model.cfg_text(consts, view="View", action_constraint="Emit"), ctx, name)
         st = graphwalk.walk(gr, ad, ctx, name, paths_per_state=2)
         ctx.note("walk %s" % st)
+    class_tree(ctx, cu)
     ctx.exhaustive = True
